@@ -673,9 +673,16 @@ impl Blockchain {
     }
 
     fn remove_block_transactions(&self, block_hash: &SaitoHash, mempool: &mut Mempool) {
-        mempool
-            .transactions
-            .retain(|_, tx| tx.validate_against_utxoset(&self.utxoset));
+        // a pooled transaction stays only while the next block can still spend its inputs:
+        // they must be unspent and must not leave the retention window with that block
+        let next_block_id = self.get_latest_block_id() + 1;
+        let genesis_period = self.genesis_period;
+        mempool.transactions.retain(|_, tx| {
+            tx.validate_against_utxoset(&self.utxoset)
+                && tx.from.iter().all(|input| {
+                    input.amount == 0 || input.block_id + genesis_period >= next_block_id
+                })
+        });
         let block = self.get_block(block_hash).unwrap();
         // we call delete_tx after removing invalidated txs, to make sure routing work is calculated after removing all the txs
         mempool.delete_transactions(&block.transactions);
